@@ -39,4 +39,5 @@ def main(tier):
     chk.run("R-ENUMTEXT", C.enumtext, cx.cpp, floor=3)
     chk.run("R-ARRAYSEP", C.arraysep, cx.cpp, floor=3)
     chk.run("R-ALIASDEPS", DR.aliasdeps, r, floor=2)
+    chk.run("R-FLOATTEXT", C.floattext, cx.repo, floor=3)
     return chk.finish()
